@@ -17,6 +17,7 @@ from common import s2t, t2s
 OPS = {
     "sgr.interp": {}, "ansi.render": {"res": True}, "ansi.print": {"res": True},
     "ansi.history": {"res": True}, "ansi.parse_history": {"res": True}, "ansi.hist": {"res": True},
+    "ansi.cfg_of_env": {}, "ansi.env_render": {"res": True},
 }
 
 SYS_NAME = {0: None, 1: "standard", 2: "256", 3: "truecolor", 4: "windows"}
@@ -181,6 +182,23 @@ def rescape(rng):
     return "".join(parts)
 
 
+NO_COLOR_VALUES = [None, "", "0", "1", "anything", "false", " "]
+TERM_VALUES = [None, "", "xterm", "xterm-256color", "xterm-16color", "screen-256color-bce", "dumb", "DUMB", "unknown", " dumb",
+               " XTERM-256COLOR ", "linux", "rxvt-unicode-256color", "-256color", "vt100-16color"]
+COLORTERM_VALUES = [None, None, "", "truecolor", "24bit", " TrueColor ", "yes", "24BIT\n"]
+
+
+def _envt(nc, ct, term):
+    return [[] if v is None else [s2t(v)] for v in (nc, ct, term)]
+
+
+def rctor(rng, nc=None, nc_arg=None):
+    """Console(...) keywords + environment: [force_terminal, color_system (0 None, 1-4, 5 auto), no_color, legacy_windows, env]"""
+    return [rng.choice([1, 1, 1, 0, -1]), rng.choice([1, 2, 3, 4, 5, 5, 0]),
+            rng.choice([-1, -1, 0, 1]) if nc_arg is None else nc_arg, rng.choice([-1, -1, 0, 1]),
+            _envt(rng.choice(NO_COLOR_VALUES) if nc is None else nc[0], rng.choice(COLORTERM_VALUES), rng.choice(TERM_VALUES))]
+
+
 def generate(rng, tier):
     k = 1 if tier == "quick" else 30
     cases = []
@@ -213,6 +231,21 @@ def generate(rng, tier):
             st = rstyle(rng)
             cases.append(("ansi.hist", [s2t(LID), st, [[0, [sysn, 0, 1, 0], s2t("warm")], [0, [sysn, 1, 1, 0], s2t("hello")],
                                                        [2], [0, [sysn, 1, 0, 1], s2t("copy")], [0, [sysn, 0, 1, 0], s2t("again")]]]))
+    # console facts from the environment: NO_COLOR present with every value x the keyword, TERM / COLORTERM detection
+    for v in NO_COLOR_VALUES:
+        for nc_arg in (-1, 0, 1):
+            for sysn in (1, 2, 3, 4, 5):
+                ctor = [1, sysn, nc_arg, 0, _envt(v, rng.choice(COLORTERM_VALUES), rng.choice(["xterm-256color", "xterm", None]))]
+                cases.append(("ansi.cfg_of_env", ctor))
+                cases.append(("ansi.env_render", [ctor, [[s2t(rtext(rng, nl=False) or "x"), [rstyle(rng)], s2t(LID), [], 0],
+                                                          [s2t("z"), [], s2t(LID), [], 0]]]))
+    for term in TERM_VALUES:
+        for ct in COLORTERM_VALUES:
+            for ft in (1, 0, -1):
+                cases.append(("ansi.cfg_of_env", [ft, 5, -1, -1, _envt(None, ct, term)]))
+    for _ in range(300 * k):
+        cases.append(("ansi.cfg_of_env", rctor(rng)))
+        cases.append(("ansi.env_render", [rctor(rng), rsegs(rng)]))
     defs = ["#ff0000", "bold red", "on #00ff00", "color(196) on color(21)", "rgb(10,200,30) underline", "bright_blue",
             "italic #808080 on #123456", "default on default", "grey50"]   # no link: get_style() copies linked styles
     for d in defs:
@@ -259,6 +292,8 @@ def model_case(op, arg):
         return op, [d16] + arg
     if op == "ansi.hist":
         return op, [arg[0], arg[1], [[0, st[1] + [d16, ctl], st[2]] if st[0] == 0 else st for st in arg[2]]]
+    if op == "ansi.env_render":
+        return op, [arg[0], [d16, ctl], arg[1]]
     return op, arg
 
 
@@ -292,6 +327,19 @@ def _console(cfg):
     sysn, nc, term, lw = cfg[:4]
     return Console(file=io.StringIO(), force_terminal=bool(term), color_system=SYS_NAME[sysn], no_color=bool(nc),
                    legacy_windows=bool(lw), width=100000, _environ={})
+
+
+def _env_console(ctor):
+    import io
+    from rich.console import Console
+    ft, cs, nc, lw, env = ctor
+    environ = {}
+    for name, v in zip(("NO_COLOR", "COLORTERM", "TERM"), env):
+        if v:
+            environ[name] = t2s(v[0])
+    tri = lambda z: None if z < 0 else bool(z)
+    return Console(file=io.StringIO(), force_terminal=tri(ft), color_system="auto" if cs == 5 else SYS_NAME[cs],
+                   no_color=tri(nc), legacy_windows=tri(lw), width=100000, _environ=environ)
 
 
 def _segments(segs):
@@ -346,6 +394,15 @@ def impl(op, arg):
     if op == "ansi.print":
         console = _console(arg[0])
         console.print(_Raw(_segments(arg[1])), end="")
+        return s2t(console.file.getvalue())
+    if op == "ansi.cfg_of_env":
+        c = _env_console(arg)
+        return [0 if c._color_system is None else int(c._color_system), 1 if c.no_color else 0, 1 if c.is_terminal else 0,
+                1 if c.legacy_windows else 0]
+    if op == "ansi.env_render":
+        console = _env_console(arg[0])
+        console._buffer.extend(_segments(arg[1]))
+        console._check_buffer()
         return s2t(console.file.getvalue())
     if op == "ansi.hist":
         from rich.segment import Segment
@@ -447,6 +504,22 @@ def spec_cases(op, arg, out):
                 specs.append(("spec.ansi.no_color_params", data))
             if not cfg[2]:
                 specs.append(("spec.ansi.no_controls", data))
+        return specs
+    if op == "ansi.cfg_of_env":
+        return [("spec.ansi.no_color_convention", [arg[2], 1 if arg[4][0] else 0, out[1]])]
+    if op == "ansi.env_render":
+        if out[0] != 0:
+            return []
+        ctor, segs = arg
+        ft, cs, nc, lw, env = ctor
+        no_color = bool(nc) if nc >= 0 else bool(env[0])         # the convention: presence of NO_COLOR, whatever its value
+        cfg = [cs, 1 if no_color else 0, 1 if ft == 1 else 0, 1 if lw == 1 else 0]
+        specs = []
+        if in_domain(cfg, segs):
+            if no_color:
+                specs.append(("spec.ansi.no_color_params", out[1]))
+            if cs != 5:
+                specs.append(("spec.ansi.stream_means", [cfg + [1, 1], segs, out[1]]))
         return specs
     if op == "ansi.hist":
         if out[0] != 0:
